@@ -269,7 +269,6 @@ var c14GateExceptions = ExcTable{
 	"js_parser.(*parser).visitAndAppendStmt SLocal{Kind: LocalUsing} #2":          "downgrades an existing `await using` to `using` in dead code / restores `using` after the const optimisation: same Using feature the input already has (the parser gated it), lowered later by lowerUsingDeclarationContext when unsupported",
 	"js_parser.(*parser).visitAndAppendStmt SLocal{Kind: LocalUsing} #3":          "downgrades an existing `await using` to `using` in dead code / restores `using` after the const optimisation: same Using feature the input already has (the parser gated it), lowered later by lowerUsingDeclarationContext when unsupported",
 	"js_ast.ConvertBindingToExpr &js_ast.ESpread{}":                               "preserving: built only for the last item of a BArray whose HasSpread is set, i.e. the input already had a rest/spread element there",
-	"js_ast.InlinePrimitivesIntoTemplate &js_ast.ETemplate{}":                     "preserving: rebuilds the *ETemplate it was given with fewer parts (same node kind in, same node kind out)",
 	"js_parser.(*parser).captureValueWithPossibleSideEffects$7 &js_ast.EBigInt{}": "preserving: closure created in the `case *js_ast.EBigInt` arm; copies the existing literal",
 	"js_parser.(*parser).lowerFunction &js_ast.ESpread{}":                         "preserving: forwards the function's own rest argument (only when *hasRestArg)",
 	"js_parser.(*parser).lowerFunction Fn{IsGenerator: true}":                     "lowering target: async functions are lowered to generators only after markLoweredSyntaxFeature(AsyncAwait, ..., Generator) has reported an error when generators are unsupported too",
@@ -325,6 +324,33 @@ func c14IntroduceGate(p *Prog) *RuleResult {
 		if nodeType != "" && preservingFact(b, nodeType) {
 			r.OK(key, true, "built only after a successful type assertion to "+nodeType+" (preserves syntax the input already has)")
 			continue
+		}
+		// the same in a helper: the function is handed a node of that kind (a parameter of type *T —
+		// whoever built the argument is judged where it was built), or every call site stands after a
+		// successful type assertion to it
+		if nodeType != "" && s.fn == TopFunc(s.fn) {
+			byParam := false
+			for _, prm := range s.fn.Params {
+				if pt, ok := prm.Type().(*types.Pointer); ok && namedTypeName(pt.Elem()) == nodeType {
+					byParam = true
+				}
+			}
+			if byParam {
+				r.OK(key, true, "helper that is handed an existing "+nodeType+" (preserves syntax the input already has)")
+				continue
+			}
+			if node := cg.Nodes[s.fn]; node != nil && len(node.In) > 0 {
+				all := true
+				for _, e := range node.In {
+					if e.Site == nil || e.Site.Block() == nil || !preservingFact(e.Site.Block(), nodeType) {
+						all = false
+					}
+				}
+				if all {
+					r.OK(key, true, "every call site stands after a successful type assertion to "+nodeType)
+					continue
+				}
+			}
 		}
 		// caller-gated: every static call site of this (top-level) function is gated
 		top := TopFunc(s.fn)
